@@ -3,12 +3,30 @@ The witness harness (harness/lexer_h.c, -DVERIF_WITNESS) names its inputs in_len
 import os
 
 
+_ESC = {"n": 10, "t": 9, "r": 13, "0": 0, "a": 7, "b": 8, "f": 12, "v": 11, "\\": 92, "'": 39, '"': 34, "?": 63}
+
+
 def _num(v):
+    """CBMC prints char values as 65, 'A', '\\n', '\\'' or '\\101' depending on the value"""
     if v is None:
         return 0
     if isinstance(v, (int, float)):
         return int(v)
-    s = str(v).strip().rstrip("uUlL")
+    s = str(v).strip()
+    if len(s) >= 3 and s[0] == "'" and s[-1] == "'":
+        body = s[1:-1]
+        if body[0] != "\\":
+            return ord(body[0])
+        e = body[1:]
+        if e[:1] in _ESC and len(e) == 1:
+            return _ESC[e]
+        if e[:1] == "x":
+            return int(e[1:], 16) & 0xFF
+        try:
+            return int(e, 8) & 0xFF
+        except ValueError:
+            return ord(e[0])
+    s = s.rstrip("uUlL")
     try:
         return int(s, 0)
     except ValueError:
